@@ -31,6 +31,10 @@ public:
 
 private:
     static inline tree_instance storages_; // NOLINT
+    /**
+     * @brief serializes delete_storage calls.
+     */
+    static inline std::mutex mtx_delete_storage_; // NOLINT
 };
 
 } // namespace yakushima
